@@ -1,7 +1,7 @@
-//! Arithmetic / logic / shift operator families for all type pairings (one syntactic form per
-//! operator here: the compound-assignment-by-reference form for + - & | ^, the by-reference form
-//! for * / %; all six forms are exercised side by side by h_forms).
-use bva::{BitVector, Bv, Bvd, Bvf};
+//! Arithmetic / logic / shift operators for all type pairings (one syntactic form per operator:
+//! the compound-assignment-by-reference form for + - & | ^, the by-reference form for * / %; shifts and `!` in
+//! the requested form; all six forms of the binary operators are exercised side by side by h_forms).
+use bva::{Bv, Bvd, Bvf};
 use bva_harness::*;
 
 /// all operators for one (LHS type, RHS type) pair of vectors
@@ -90,7 +90,7 @@ fn not_op(a: &[&str]) -> String {
     for_types!(d1!(ty_tag(a[0]), go, (a[0], a[1])))
 }
 
-fn exec(t: &[&str]) -> String {
+pub fn exec(t: &[&str]) -> String {
     let op = t[0];
     let a = &t[2..];
     if op == "not" {
@@ -103,10 +103,3 @@ fn exec(t: &[&str]) -> String {
     f(op, a)
 }
 
-#[path = "../gen_ops.rs"]
-mod gen;
-
-fn main() {
-    let _ = (Bvd::zeros(0), Bv::zeros(0), Bvf::<u8, 1>::zeros(0));
-    harness_main(gen::generate, exec);
-}
